@@ -4,7 +4,7 @@ from vf.props.common import *
 def spec(tier):
     th = tier == "thorough"
     obs = []
-    K = 12 if th else 10
+    K = 14 if th else 10
     shapes = [("chain3", "single", "chain2"), ("diamond", "tworoots2", "single"), ("fanout3", "tworoots2", "chain2")] + ([("fanin3", "fork4", "chain2")] if th else [])
     for pools in (1, 2, 3):
         for multi in (True, False):
@@ -16,7 +16,7 @@ def spec(tier):
                                   pipe(s2, prio=1, at="ta", durs=[1, "db"], mems=["mb", 1]),                 # with two roots: the first root may fail
                                   pipe(s3, prio=2, at="tb", durs=[2, 1], mems=[1, "mb"])])
                 obs.append(CH(name=f"naive_P{pools}_{'multi' if multi else 'single'}_s{si}", harness="sched.naive",
-                              sym=dict(cpus=I(1, 8), ram=I(1, 20), ma=I(1, 22), mb=I(1, 22), ta=I(0, 3), tb=I(0, 3), da=I(1, 2), db=I(1, 2)),
+                              sym=dict(cpus=I(1, 16 if th else 8), ram=I(1, 40 if th else 20), ma=I(1, 44 if th else 22), mb=I(1, 44 if th else 22), ta=I(0, 3), tb=I(0, 3), da=I(1, 2), db=I(1, 2)),
                               fixed=dict(cfg=cfg), timeout=900))
     # a join operator whose parents finish at different times on different pools (single-operator containers)
     cfgj = dict(algo="naive", pools=2, multi=False, K=K,
